@@ -361,6 +361,12 @@ func runC11(w *W) {
 					fixed = append(fixed, input)
 				}
 				cnt++
+			} else if desc == "tails" || desc == "tails-valid" {
+				// all of them for the statement kinds whose printers copy or rewrite parts of the tree (EXPLAIN, SELECT, INSERT, CREATE … AS)
+				if cnt%(3*step) == 0 || strings.HasPrefix(input, "EXPLAIN") || strings.HasPrefix(input, "SELECT") || strings.HasPrefix(input, "INSERT") || strings.HasPrefix(input, "CREATE VIEW") || strings.HasPrefix(input, "WITH") || strings.HasPrefix(input, "(SELECT") {
+					fixed = append(fixed, input)
+				}
+				cnt++
 			}
 		})
 	}
